@@ -441,6 +441,10 @@ func (w *World) invoke(r *Reg, ft reflect.Type, args []reflect.Value) []reflect.
 	switch r.Form {
 	case FormPlain, FormMulti:
 		for i, o := range r.Outs {
+			if o.Nil {
+				inv.Outs = append(inv.Outs, nil) // res[i] stays the zero (nil) interface
+				continue
+			}
 			e, obj := w.newEntry(r, i, o.Impl, inv)
 			inv.Outs = append(inv.Outs, e)
 			res[i] = obj.Convert(ft.Out(i))
@@ -479,7 +483,9 @@ func (w *World) invoke(r *Reg, ft reflect.Type, args []reflect.Value) []reflect.
 	end := w.NextSeq()
 	inv.EndSeq = end
 	for _, e := range inv.Outs {
-		e.BornSeq = end
+		if e != nil {
+			e.BornSeq = end
+		}
 	}
 	inv.Outcome = 1
 	return res
